@@ -181,6 +181,25 @@ def derive_layout_copy(src, fn, helpers=()):
     return ''.join(out), {'map_keycode_calls': n_call, 'into_literals': n_into}
 
 
+def pred_copy(src, fn, ctx, info):
+    """textual copy where the rules apply; otherwise (e.g. `matches!`) a behavioural one: a decision tree over the nine flags
+    synthesised from the real predicate's complete truth table (512 rows, dumped by the replayer). Either way it is an
+    untrusted hint: Kani proves `real(m) == copy(m)` for all 512 values on the compiled crate."""
+    try:
+        return derive_pred_copy(src, fn)
+    except ExtractError:
+        bits = (ctx.get('pred_hints') or {}).get(fn.name)
+        if bits is None:
+            if fn.name not in info.needs_pred_hints:
+                info.needs_pred_hints.append(fn.name)
+            raise
+        from . import synth
+        try:
+            return synth.pred_body(bits)
+        except Exception as e:
+            raise ExtractError('predicate %s: behavioural synthesis failed: %r' % (fn.key, e))
+
+
 def derive_pred_copy(src, fn):
     """spec copy of a Modifiers predicate. Verus cannot read `|`, `&`, `^` on bool, so the body - a single expression over
     those operators, method calls, field accesses, `!` and parentheses - is re-emitted fully parenthesised with
@@ -331,6 +350,7 @@ class GenInfo:
         self.invariant_audit = []
         self.needs_table_hints = False
         self.needs_layout_hints = []
+        self.needs_pred_hints = []
         self.lost = []             # (contract key, props) whose function no longer exists
         self.lost_ghosts = []
 
@@ -452,7 +472,7 @@ def render_file(path, module, moddir, ctx):
                 if f.owner.startswith('KeyboardLayout for ') and f.name == 'map_keycode':
                     derive_layout_copy(src, f, ctx['helpers'])
                 elif f.owner == 'Modifiers' and f.name.startswith('is_') and not names:
-                    derive_pred_copy(src, f)
+                    pred_copy(src, f, ctx, info)
             except ExtractError as e:
                 opaque = True
                 info.underivable.append('%s: %s' % (key, e))
@@ -540,7 +560,7 @@ def render_file(path, module, moddir, ctx):
             info.obligations[oid] = {'kind': 'derived', 'props': [], 'fn': key, 'text': 'exec body == derived spec copy'}
             info.derived.append({'fn': key, 'kind': 'table', 'how': how})
         elif f.has_body and f.owner == 'Modifiers' and f.name.startswith('is_') and not names:
-            copy = derive_pred_copy(src, f)
+            copy = pred_copy(src, f, ctx, info)
             pre_items = '/*@DERIVED:%s@*/\n    pub open spec fn spec_%s(&self) -> bool %s\n/*@ENDDERIVED@*/\n    ' % (key, f.name, copy)
             attrs += ['#[verifier::external_body]', '#[verifier::when_used_as_spec(spec_%s)]' % f.name]
             oid = key + '/assumed'
@@ -643,10 +663,10 @@ MARK = re.compile(r'/\*@(OB|FN|ENDFN|GHOST|ENDGHOST|DERIVED|ENDDERIVED|LEMMA|END
 CELL = re.compile(r'//\s*CELL\s+(.+?)\s*$')
 
 
-def generate(repo, contracts_dir, lemma_texts=(), out_path=None, opaque=(), probe=False, external=(), table_hints=None, layout_hints=None, behavioural=()):
+def generate(repo, contracts_dir, lemma_texts=(), out_path=None, opaque=(), probe=False, external=(), table_hints=None, layout_hints=None, behavioural=(), pred_hints=None):
     fncontracts, ghosts = vspec.load_dir(contracts_dir)
     info = GenInfo()
-    ctx = {'info': info, 'fncontracts': fncontracts, 'ghosts': ghosts, 'repo': repo, 'opaque': set(opaque), 'probe': probe, 'helpers': set(), 'external': set(external), 'table_hints': table_hints, 'layout_hints': layout_hints, 'behavioural': set(behavioural), 'keycodes_for_synth': [], 'private_types': set()}
+    ctx = {'info': info, 'fncontracts': fncontracts, 'ghosts': ghosts, 'repo': repo, 'opaque': set(opaque), 'probe': probe, 'helpers': set(), 'external': set(external), 'table_hints': table_hints, 'layout_hints': layout_hints, 'pred_hints': pred_hints, 'behavioural': set(behavioural), 'keycodes_for_synth': [], 'private_types': set()}
     srcdir = os.path.join(repo, 'src')
     try:
         libsrc = open(os.path.join(srcdir, 'lib.rs'), encoding='utf-8').read()
